@@ -98,6 +98,7 @@ PROPS = {
         "engines": [
             {"name": "c09-echo"},
             {"name": "c09-tls", "bin": "vmon_tls", "package": "tlsmon"},
+            {"name": "c09-tls-h2", "bin": "vmon_tls", "package": "tlsmon"},
             asan("C09", "c09-echo"),
         ],
         "assumptions": ASSUME_COMMON,
